@@ -3,7 +3,7 @@
     (user, allocated_cores_mcpu).  Every theorem quantifies over ALL user types, ALL lists of users
     (hence all multisets, in every arrival order) with non-negative running/ready cores, and ALL integers
     [free] — positive, zero or negative. *)
-From HailV Require Import Common.Prelude FairShare.Model FairShare.Lemmas FairShare.Invariant FairShare.Final FairShare.Top.
+From HailV Require Import Common.Prelude FairShare.Model FairShare.Lemmas FairShare.Invariant FairShare.Final FairShare.Top FairShare.Caller.
 From Coq Require Import Permutation.
 Open Scope Z_scope.
 
@@ -100,3 +100,70 @@ Theorem C11_max_min_fair : forall U (running ready : U -> Z) users free R,
   forall u x v y, In (u, x) R -> In (v, y) R -> x < ready u -> 0 < y -> running v + y <= running u + x.
 Proof. intros U running ready users free R Hnn HR. exact (top_max_min running ready users free R Hnn HR). Qed.
 Print Assumptions C11_max_min_fair.
+
+(** ------------------------------------------------------------------------------------------------------------
+    The caller, PoolScheduler.compute_fair_share (FairShare/Caller.v): the free-core amount given to the water
+    filling is the sum of free_cores_mcpu (possibly negative, not clamped) over pool.healthy_instances_by_free_cores,
+    i.e. over the instances with state 'active' and failed_request_count <= 1 (Pool.adjust_for_add_instance).
+    [compute_fair_share running ready users insts] is the model of the method on a pool holding [insts];
+    [schedulable_free insts] is the specification-side amount (recursion over ALL instances, written independently).
+    The theorems quantify over ALL lists of instances (any state, any failed-request count, any version, any free
+    cores incl. negative) and ALL user lists with non-negative demands. *)
+
+(** The model's free-core amount is exactly the free cores of the schedulable workers. *)
+Theorem C11_caller_free_is_schedulable : forall insts, caller_free insts = schedulable_free insts.
+Proof. exact caller_free_schedulable. Qed.
+Print Assumptions C11_caller_free_is_schedulable.
+
+(** The total handed out by compute_fair_share never exceeds the schedulable free cores of the pool by more than
+    the rounding slack (half a millicore per served user). *)
+Theorem C11_caller_total_le_schedulable : forall U (running ready : U -> Z) users insts R,
+  nonneg_demands running ready users -> compute_fair_share running ready users insts = Some R ->
+  2 * zsum snd R <= 2 * Z.max 0 (schedulable_free insts) + count_pos R.
+Proof. intros U running ready users insts R Hnn HR. exact (caller_sum_upper running ready users insts R Hnn HR). Qed.
+Print Assumptions C11_caller_total_le_schedulable.
+
+(** No schedulable free cores (none healthy, or the oversubscribed workers owe at least what the others have free):
+    nobody is allocated anything. *)
+Theorem C11_caller_nothing_schedulable : forall U (running ready : U -> Z) users insts R,
+  compute_fair_share running ready users insts = Some R -> schedulable_free insts <= 0 ->
+  forall u x, In (u, x) R -> x = 0.
+Proof. intros U running ready users insts R HR H. exact (caller_nothing_schedulable running ready users insts R HR H). Qed.
+Print Assumptions C11_caller_nothing_schedulable.
+
+(** ... and when the demand allows, all schedulable free cores are handed out. *)
+Theorem C11_caller_work_conserving : forall U (running ready : U -> Z) users insts R,
+  nonneg_demands running ready users -> compute_fair_share running ready users insts = Some R ->
+  0 < schedulable_free insts <= zsum ready users ->
+  2 * schedulable_free insts - Z.of_nat (length users) < 2 * zsum snd R.
+Proof. intros U running ready users insts R Hnn HR. exact (caller_work_conserving running ready users insts R Hnn HR). Qed.
+Print Assumptions C11_caller_work_conserving.
+
+(** A worker outside the healthy set (pending, inactive, deleted, or with two or more failed requests) has no
+    influence on the result, whatever its free cores and wherever it sits; nor has the order of the workers. *)
+Theorem C11_caller_ignores_unhealthy : forall U (running ready : U -> Z) users l1 i l2,
+  healthy i = false ->
+  compute_fair_share running ready users (l1 ++ i :: l2) = compute_fair_share running ready users (l1 ++ l2).
+Proof. intros U running ready users l1 i l2 H. exact (caller_ignores_unhealthy running ready users l1 i l2 H). Qed.
+Print Assumptions C11_caller_ignores_unhealthy.
+
+Theorem C11_caller_order_irrelevant : forall U (running ready : U -> Z) users l1 l2,
+  Permutation l1 l2 -> compute_fair_share running ready users l1 = compute_fair_share running ready users l2.
+Proof. intros U running ready users l1 l2 H. exact (caller_order_irrelevant running ready users l1 l2 H). Qed.
+Print Assumptions C11_caller_order_irrelevant.
+
+(** Version-aware statement (Pool.get_instance only returns workers of the current version [cur]):
+    FULL statement — forall insts, 2 * sum <= 2 * max 0 (placeable_free cur insts) + #served — is REFUTED by the
+    code as it is (the healthy set is not filtered by version); it holds when every healthy worker runs [cur]. *)
+Theorem C11_caller_total_le_placeable_partial : forall U (running ready : U -> Z) users insts R cur,
+  nonneg_demands running ready users -> compute_fair_share running ready users insts = Some R ->
+  (forall i, In i insts -> healthy i = true -> i_version i = cur) ->
+  2 * zsum snd R <= 2 * Z.max 0 (placeable_free cur insts) + count_pos R.
+Proof. intros U running ready users insts R cur Hnn HR H. exact (caller_sum_upper_placeable running ready users insts R Hnn HR cur H). Qed.
+Print Assumptions C11_caller_total_le_placeable_partial.
+
+Theorem C11_caller_total_le_placeable_refuted :
+  exists R, compute_fair_share fst snd old_version_witness_users old_version_witness_insts = Some R /\
+            2 * Z.max 0 (placeable_free 30 old_version_witness_insts) + count_pos R < 2 * zsum snd R.
+Proof. exact caller_placeable_refuted. Qed.
+Print Assumptions C11_caller_total_le_placeable_refuted.
